@@ -415,9 +415,9 @@ func init() {
 	}})
 	ctl("integer conversion trusts the wire value to be non-nil", "P-NIL-REFLECT", "OvsToNativeAtomic|method on reflect.TypeOf", "ovsdb", "", "OvsToNativeAtomic", kExpr, "ovsElem == nil || !reflect.TypeOf(ovsElem).ConvertibleTo(naType)", 0, to("!reflect.TypeOf(ovsElem).ConvertibleTo(naType)"))
 	ctl("insert no longer refuses a uuid in use", "T-UUIDFREE", "Transaction).Insert|uuid checked to be free", "database/transaction", "Transaction", "Insert", kExpr, "inUse", 3, to("false"))
-	ctl("merge overwrites the first old value on a later update", "M-OLD", "updates.merge|assignment of the accumulator's old", "updates", "", "merge", kStmt, "a.new = b.new", 1, to("a.old = b.old\na.new = b.new"))
-	ctl("merge keeps an intermediate value as the new one", "M-NEW", "updates.merge|assignment of the accumulator's new", "updates", "", "merge", kStmt, "a.new = b.new", 1, to("a.new = b.old"))
+	ctl("merge error overwritten by the next step", "ERR-DEAD", "Transaction).Transact|error of Merge", "database/transaction", "Transaction", "Transact", kStmt, "err := update.Merge(t.Model, *u)", 0, to("err := update.Merge(t.Model, *u)\nerr = nil"))
 	ctl("addUpdate stores empty updates", "M-DROP", "addUpdate|entry stored only when not empty", "updates", "ModelUpdates", "addUpdate", kExpr, "!update.isEmpty()", 0, to("true"))
+	ctl("rows already in the transaction cache are not warmed and stay as listed", "T-WARM", "rowsFromTransactionCacheAndDatabase|database row reconciled", "database/transaction", "Transaction", "rowsFromTransactionCacheAndDatabase", kStmt, "if err := t.Cache.Table(table).Create(rowUUID, row, false); err != nil", 0, func(orig string) string { return "if !t.Cache.Table(table).HasRow(rowUUID) {\n" + orig + "\n}" })
 	ctl("lock taken before waiting for the handlers", "L-WAIT", "handleDisconnectNotification|WaitGroup.Wait", "client", "ovsdbClient", "handleDisconnectNotification", kStmt, "o.handlerShutdown.Wait()", 0, to("o.shutdownMutex.Lock()\no.handlerShutdown.Wait()\no.shutdownMutex.Unlock()"))
 	ctl("transact accepts an empty operation list", "G-ARGS", "at least one operation", "server", "OvsdbServer", "Transact", kExpr, "len(args) < 2", 0, to("len(args) < 1"))
 	ctl("delete-by-keys special case for every column", "P-NIL-TYPEOBJ", "addMutateOperation|deref", "updates", "ModelUpdates", "addMutateOperation", kExpr, `mutation.Mutator == "delete" && column.Type == ovsdb.TypeMap && reflect.TypeOf(mutation.Value) != reflect.TypeOf(ovsdb.OvsMap{})`, 0, to(`mutation.Mutator == "delete" && reflect.TypeOf(mutation.Value) != reflect.TypeOf(ovsdb.OvsMap{})`))
